@@ -779,3 +779,83 @@ Section RibTheorems.
         apply filter_In. split; [apply get_In; exact E1|]. cbn [snd]. apply negb_true_iff. apply rnode_emp_routes. rewrite E2. exact Hne.
   Qed.
 End RibTheorems.
+
+(* ================= the batch operation (C05 over the extended alphabet) ================= *)
+Lemma fold_flat_map : forall (A B S : Type) (f : S -> B -> S) (g : A -> list B) (l : list A) (s : S),
+  fold_left f (flat_map g l) s = fold_left (fun s a => fold_left f (g a) s) l s.
+Proof.
+  intros A B S f g. induction l as [|a l IH]; intro s; [reflexivity|]. simpl. rewrite fold_left_app. apply IH.
+Qed.
+
+Lemma run_tree_b_expand : forall bs, run_tree_b bs = run_tree (expand bs).
+Proof. intro bs. unfold run_tree_b, run_tree, expand, tree_step_b. symmetry. apply fold_flat_map. Qed.
+Lemma run_ht_b_expand : forall m bs, run_ht_b m bs = run_ht m (expand bs).
+Proof. intros m bs. unfold run_ht_b, run_ht, expand, ht_step_b. symmetry. apply fold_flat_map. Qed.
+Lemma run_spec_b_expand : forall bs, run_spec_b bs = run_spec (expand bs).
+Proof. intro bs. unfold run_spec_b, run_spec, expand, spec_step_b. symmetry. apply fold_flat_map. Qed.
+
+(* what a batch means on the flat map: a prefix listed (last) in the batch with distinct faces holds exactly the listed
+   next hops afterwards (an empty list empties it) and keeps its strategy; prefixes not listed are untouched *)
+Lemma expand_update_names : forall u o, In o (expand_update u) -> op_name o = fst u.
+Proof.
+  intros [n l] o [<-|H]; [reflexivity|]. apply in_map_iff in H. destruct H as [fc [<- _]]. reflexivity.
+Qed.
+
+Lemma replace_update_effect : forall (s : spec) u, NoDup (faces (snd u)) ->
+  let s' := fold_left spec_step (expand_update u) s in
+  nhs (sget s' (fst u)) = snd u /\ strat (sget s' (fst u)) = strat (sget s (fst u)) /\
+  forall p, p <> fst u -> sget s' p = sget s p.
+Proof.
+  intros s [n l] ND s'. cbn [fst snd] in *. unfold s', expand_update. cbn [fst snd fold_left].
+  assert (Hc : sget (spec_step s (Clr n)) n = mkfent [] (strat (sget s n))).
+  { rewrite (sget_step s (Clr n) n). cbn [op_name op_ent]. rewrite name_eqb_refl. reflexivity. }
+  destruct (ins_all l (spec_step s (Clr n)) n []) as [H1 H2]; [rewrite Hc; reflexivity | exact ND|].
+  split; [exact H1|]. split; [rewrite H2, Hc; reflexivity|].
+  intros p Hp. rewrite fold_untouched.
+  - apply sget_step_other. cbn [op_name]. congruence.
+  - intros o Ho. apply in_map_iff in Ho. destruct Ho as [fc [<- _]]. cbn [op_name]. congruence.
+Qed.
+
+(* ================= strategy choice shares the FIB with the routes: it never changes a route lookup ================= *)
+Definition strat_only (o : fibop) : bool := match o with SetS _ _ | UnS _ => true | _ => false end.
+Inductive mop := MRib (o : ribop) | MStrat (o : fibop).    (* a RIB operation, or a strategy set/unset made directly on the FIB *)
+Definition mop_ok (m : mop) : Prop := match m with MStrat o => strat_only o = true | MRib _ => True end.
+Definition rib_ops (ms : list mop) : list ribop := flat_map (fun m => match m with MRib o => [o] | MStrat _ => [] end) ms.
+
+Section RibMixed.
+  Variable shuffle : list nexthop -> list nexthop.
+  Hypothesis shuffle_perm : forall l, Permutation (shuffle l) l.
+
+  Definition mixed_step (st : rib * list fibop) (m : mop) : rib * list fibop :=
+    match m with
+    | MRib o => let (t', fo) := rib_step shuffle (fst st) o in (t', snd st ++ fo)
+    | MStrat o => (fst st, snd st ++ [o])
+    end.
+  Definition mixed_run (ms : list mop) : rib * list fibop := fold_left mixed_step ms (rib_init, []).
+
+  Lemma strat_step_nhs : forall (s : spec) o p, strat_only o = true -> nhs (sget (spec_step s o) p) = nhs (sget s p).
+  Proof.
+    intros s o p H. rewrite sget_step. destruct (name_eqb (op_name o) p) eqn:E; [|reflexivity].
+    apply name_eqb_eq in E. subst p. destruct o; try discriminate; reflexivity.
+  Qed.
+
+  Lemma mixed_run_from_sys : forall ms st R, Forall mop_ok ms ->
+    RInv (fst st) R -> FOK (run_spec (snd st)) R ->
+    RInv (fst (fold_left mixed_step ms st)) (fold_left rspec_step (rib_ops ms) R) /\
+    FOK (run_spec (snd (fold_left mixed_step ms st))) (fold_left rspec_step (rib_ops ms) R).
+  Proof.
+    induction ms as [|m ms IH]; intros st R Hok I F; [split; assumption|]. inversion Hok as [|? ? Hm Hok']; subst.
+    cbn [fold_left]. destruct m as [o|o]; cbn [rib_ops flat_map mixed_step].
+    - destruct (rib_step_sys shuffle shuffle_perm (fst st) R (run_spec (snd st)) o I F) as [I' F'].
+      destruct (rib_step shuffle (fst st) o) as [t' fo] eqn:Est. cbn [fst snd] in I', F'. cbn [app fold_left].
+      apply IH; cbn [fst snd]; [exact Hok' | exact I'|]. unfold run_spec. rewrite fold_left_app. exact F'.
+    - cbn [app]. apply IH; cbn [fst snd]; [exact Hok' | exact I|]. unfold run_spec. rewrite fold_left_app. cbn [fold_left].
+      intro p. rewrite (strat_step_nhs _ o p Hm). apply F.
+  Qed.
+
+  Theorem rib_fib_exact_with_strategy_thm : forall ms p, Forall mop_ok ms ->
+    Permutation (nhs (sget (run_spec (snd (mixed_run ms))) p)) (fib_want (routes_after (rib_ops ms)) p).
+  Proof.
+    intros ms p Hok. destruct (mixed_run_from_sys ms (rib_init, []) [] Hok (proj1 rib_init_sys) (proj2 rib_init_sys)) as [_ F]. apply F.
+  Qed.
+End RibMixed.
